@@ -1,6 +1,6 @@
 From Coq Require Import List Arith Lia Bool.
 Import ListNotations.
-Require Import Sem2 Safe Live LiveInv Kahn Pool Threads Sched2.
+Require Import Sem2 Safe Live LiveInv Kahn Pool Threads Sched2 Check Overlap.
 
 (* From the graph facts to the properties of every run of the emitted program *)
 Section Assembly.
@@ -49,6 +49,47 @@ Theorem emitted_wfl : exists st, Threads.build np pool deps isasync args = Some 
 Proof.
   destruct threads_exist as (st & B & ND & V & C & M). exists st. split; auto.
   apply Sched2.P_wfl with (rank0 := rank0); auto.
+Qed.
+
+
+(* C05 for the emitted program: all asynchronous providers without parameters can be inside their provider function at
+   the same time - whatever else the injector contains *)
+Hypothesis np_roots : forall l, NoDup l -> (forall x, In x l -> x < nn /\ nreq x = 0 /\ isarg x = false /\ isasync x = true) -> length l <= np.
+Let mkitem := Sched2.mkitem nn outs nreq src sidx nprov isarg isasync np fallible.
+
+Theorem emitted_async_roots_overlap : exists st, Threads.build np pool deps isasync args = Some st /\
+  forall roots, NoDup roots -> (forall n, In n roots -> n < nn /\ nreq n = 0 /\ isarg n = false /\ isasync n = true) ->
+  exists ls s, forallb ffl ls = true /\ Sem2.run (prog_of st) (Sem2.init (prog_of st)) ls = Some s /\
+    forall n, In n roots -> exists t j vs, item_at (prog_of st) t j = Some (mkitem n) /\ nth_error (s_thr s) t = Some (TRun j (PInside vs)).
+Proof.
+  destruct threads_exist as (st & B & ND & V & C & M). exists st. split; auto.
+  assert (W : wfl (prog_of st) rk) by (apply Sched2.P_wfl with (rank0 := rank0); auto).
+  intros roots NDr Hr.
+  assert (L : exists F, Forall2 (fun n tj => item_at (prog_of st) (fst tj) (snd tj) = Some (mkitem n) /\ waitfree_upto (prog_of st) tj) roots F).
+  { clear NDr. induction roots as [|n r IH]; [exists []; constructor|].
+    destruct IH as (F & HF); [intros m Hm; apply Hr; right; auto|].
+    destruct (Hr n (or_introl eq_refl)) as (Hn & Hq & Ha & _).
+    destruct (Sched2.root_located nn outs nreq src sidx nprov isarg isasync np outs_src outs_nodup src_lt rank0 acyclic np_pos fallible reterr (0 :: Threads.gos st) C n Hn Ha Hq) as (t & j & Hi & Hw).
+    exists ((t, j) :: F). constructor; auto. split; [exact Hi|]. split; [exists (mkitem n); exact Hi | exact Hw]. }
+  destruct L as (F & HF).
+  assert (NDF : NoDup (map fst F)).
+  { revert NDr Hr. induction HF as [|n tj r F (Hi & _) HF IH]; intros NDr Hr; [constructor|]. simpl. inversion NDr; subst.
+    constructor; [|apply IH; auto; intros m Hm; apply Hr; right; auto].
+    intro Hin. apply in_map_iff in Hin. destruct Hin as (tj' & Et & Hin').
+    assert (Hex : exists n', In n' r /\ item_at (prog_of st) (fst tj') (snd tj') = Some (mkitem n')).
+    { clear - HF Hin'. induction HF as [|a b r F (Hab & _) HF IH]; [destruct Hin'|]. destruct Hin' as [<-|Hin']; [exists a; split; [left|]; auto|].
+      destruct (IH Hin') as (n' & A & B). exists n'. split; [right|]; auto. }
+    destruct Hex as (n' & Hn' & Hi'). rewrite Et in Hi'.
+    destruct (Hr n (or_introl eq_refl)) as (_ & Hq & _ & Has). destruct (Hr n' (or_intror Hn')) as (_ & Hq' & _ & Has').
+    assert (n = n'); [|subst; contradiction].
+    eapply (Sched2.root_threads_distinct nn outs nreq src sidx nprov isarg isasync np outs_src outs_nodup src_lt rank0 acyclic np_pos fallible reterr (0 :: Threads.gos st) np_roots); eauto. }
+  destruct (overlap (prog_of st) rk W F NDF) as (ls & s & Hf & R & Hin).
+  { intros tj Htj. clear - HF Htj. induction HF as [|a b r F (_ & Hw) HF IH]; [destruct Htj|]. destruct Htj as [<-|Htj]; auto. }
+  exists ls, s. split; auto. split; auto. intros n Hn.
+  assert (Hex : exists tj, In tj F /\ item_at (prog_of st) (fst tj) (snd tj) = Some (mkitem n)).
+  { clear - HF Hn. induction HF as [|a b r F (Hab & _) HF IH]; [destruct Hn|]. destruct Hn as [<-|Hn]; [exists b; split; [left|]; auto|].
+    destruct (IH Hn) as (tj & A & B). exists tj. split; [right|]; auto. }
+  destruct Hex as (tj & Htj & Hi). destruct (Hin tj Htj) as (vs & Hs). exists (fst tj), (snd tj), vs. auto.
 Qed.
 
 (* C01 (order and values) and C03 (deadlock freedom and join), for every run of the emitted program *)
